@@ -527,7 +527,31 @@ func (e *Engine) CheckProperty(prop, tier, verifDir string, verbose, writeEviden
 				}
 			}
 		}
+		// a call (or send) that a clause of this property is attached to, present and discharged on the unchanged tree
+		// (baseline), has disappeared from the body: the guarded action no longer happens, or happens elsewhere unchecked
+		seen := map[string]bool{}
+		for _, o := range r.Obligations {
+			seen[o.Name] = true
+		}
+		var gone []string
+		for bn := range baseline {
+			if (strings.HasPrefix(bn, r.Func+"/at-call[") || strings.HasPrefix(bn, r.Func+"/at-send[")) && !seen[bn] {
+				if i := strings.LastIndex(bn, "]["); i >= 0 && strings.Contains(bn[i:], prop) {
+					gone = append(gone, bn)
+				}
+			}
+		}
+		sort.Strings(gone)
+		for _, bn := range gone {
+			total++
+			o := &Obligation{Name: bn, Kind: "at-call", Func: r.Func, Status: "undecided", Backends: map[string]int{},
+				Raw: "discharged on the unchanged tree (baseline); the call this clause is attached to no longer occurs in the body, so the obligation is not generated any more"}
+			viols = append(viols, viol{o, r})
+		}
 		for _, u := range r.Unsupported {
+			if len(gone) > 0 && strings.Contains(u, "matches no call in the body") {
+				continue
+			}
 			unsupported = append(unsupported, r.Func+": "+u)
 		}
 		for _, n := range r.Notes {
